@@ -371,10 +371,17 @@ class ProgramModel:
         if isinstance(expr, (ast.List, ast.Tuple)):
             out = []
             for e in expr.elts:
+                if isinstance(e, ast.Starred):
+                    # [*names, …]: the names spliced in where they stand
+                    out += self.eval_str_list(cn, owner, e.value, prop)
+                    continue
                 if not (isinstance(e, ast.Constant) and isinstance(e.value, str)):
                     raise AnalysisError(f"{owner}.{prop}: non-literal list element {ast.unparse(e)}")
                 out.append(e.value)
             return out
+        if isinstance(expr, ast.Dict) and all(isinstance(k_, ast.Constant) and isinstance(k_.value, str) for k_ in expr.keys):
+            # a dict literal iterated over / spliced: its keys, in order
+            return [k_.value for k_ in expr.keys]
         if isinstance(expr, ast.BinOp) and isinstance(expr.op, ast.Add):
             return self.eval_str_list(cn, owner, expr.left, prop) + self.eval_str_list(cn, owner, expr.right, prop)
         if isinstance(expr, ast.Attribute) and isinstance(expr.value, ast.Call) \
